@@ -4,7 +4,7 @@ open Lean NiftyVerif.Proto NiftyVerif.CrashFS NiftyVerif.CrashCl
 
 /-!
 ops:
- {"op":"ops","proto":"repaired"|"asFound","strategy":"all"|"latest","total":3,"nsamp":2,"resume":false}
+ {"op":"ops","proto":"repaired"|"atomicOnly"|"asFound","strategy":"all"|"latest","total":3,"nsamp":2,"resume":false}
      -> {"coarse":[…],"fine":N}      file operations of an uninterrupted run from an empty directory
  {"op":"sim","proto":…,"strategy":…,"total":3,"nsamp":2,"r0":false,"kills":[k1,…]}
      -> {"stages":[{"nops","pos","files","coarse","outcome"}…],"final":{"outcome":"ok:<state>"|"error:<kind>","coarse","files"}}
@@ -27,7 +27,8 @@ def pname : Path → String
 
 def protoOf? (j : Json) : Option Proto :=
   match fStr? j "proto" with
-  | some "repaired" => some .repaired | some "asFound" => some .asFound | _ => none
+  | some "repaired" => some .repaired | some "atomicOnly" => some .atomicOnly | some "asFound" => some .asFound
+  | _ => none
 
 def stratOf? (j : Json) : Option Strategy :=
   match fStr? j "strategy" with
@@ -35,17 +36,18 @@ def stratOf? (j : Json) : Option Strategy :=
 
 /-- coarse view with the file system threaded through: `os.remove` of `_save_to_disk` (as found) happens only if the file
     exists; `Path.unlink(missing_ok=True)` of the next sample always (shown as remove-missing when absent) -/
-def coarseFS (nsamp : Nat) : FS Path → List (Op Path) → List String
+def coarseFS (proto : Proto) (nsamp : Nat) : FS Path → List (Op Path) → List String
   | _, [] => []
   | fs, o :: rest =>
     let fs' := exec fs o
-    let r := coarseFS nsamp fs' rest
+    let r := coarseFS proto nsamp fs' rest
     match o with
     | .append p _ =>
-        let s := "write " ++ pname p
+        let s := "flush " ++ pname p
         match rest with
         | .append q _ :: _ => if q = p then r else s :: r
         | _ => s :: r
+    | .wbuf p => ("write " ++ pname p) :: r
     | .mkdir p => ("mkdir " ++ pname p) :: r
     | .openW p => ("openw " ++ pname p) :: r
     | .openA p => ("opena " ++ pname p) :: r
@@ -54,8 +56,9 @@ def coarseFS (nsamp : Nat) : FS Path → List (Op Path) → List String
     | .opaque p => ("opaque " ++ pname p) :: r
     | .remove p =>
         let cond : Bool := match p with
-          | .sample _ k => decide (k < nsamp)
-          | .mean _ => true
+          | .sample _ k => proto == .asFound && decide (k < nsamp)     -- _save_to_disk as found: `if isfile: os.remove`
+          | .mean _ => proto == .asFound                               -- (repaired MAP: Path.unlink(missing_ok=True), always)
+          | .marker => true          -- _invalidate_last_finished_iteration: `if isfile(...): remove(...)`
           | _ => false
         if (fs p).isSome then ("remove " ++ pname p) :: r
         else if cond then r else ("remove-missing " ++ pname p) :: r
@@ -118,10 +121,10 @@ def groupInfo (ops : List (Op Path)) : List (Nat × Nat) :=
 
 /-- position of fine index k: the coarse index counts every op (also conditional removes that the real code skips — the
     harness maps by the coarse *label* list, see `posJson.label`) -/
-def posJson (nsamp : Nat) (fs : FS Path) (ops : List (Op Path)) (k : Nat) : Json :=
+def posJson (proto : Proto) (nsamp : Nat) (fs : FS Path) (ops : List (Op Path)) (k : Nat) : Json :=
   if k ≥ ops.length then Json.str "end" else
   let pre := ops.take k
-  let done := (coarseFS nsamp fs pre).length
+  let done := (coarseFS proto nsamp fs pre).length
   match ops[k]? with
   | some (.append p _) =>
       -- offset inside the run of appends
@@ -140,35 +143,36 @@ def outcomeStr (r : Except Err Nat) : String :=
   | .error .unpickle => "error:unpickle"
   | .error .missing => "error:missing"
 
-partial def simStages (proto : Proto) (strat : Strategy) (total nsamp : Nat) (resume : Bool) (fs : FS Path)
+partial def simStages (proto : Proto) (strat : Strategy) (total nsamp : Nat) (vi : Bool) (resume : Bool) (fs : FS Path)
     (kills : List Nat) (acc : List Json) : List Json × Json :=
-  let r := run (natSys nsamp) proto strat resume total 0 fs
+  let r := run (natSys nsamp vi) proto strat resume total 0 fs
   match kills with
   | [] =>
-    let r := run (natSys nsamp) proto strat true total 0 fs
-    (acc, jObj [("outcome", Json.str (outcomeStr r.2)), ("coarse", jList Json.str (coarseFS nsamp fs r.1)),
+    let r := run (natSys nsamp vi) proto strat true total 0 fs
+    (acc, jObj [("outcome", Json.str (outcomeStr r.2)), ("coarse", jList Json.str (coarseFS proto nsamp fs r.1)),
                 ("files", filesJson total nsamp (execs fs r.1))])
   | k :: rest =>
     let fs' := crash fs r.1 k
     let finished := k ≥ r.1.length
-    let st := jObj [("nops", jNat r.1.length), ("pos", posJson nsamp fs r.1 k), ("files", filesJson total nsamp fs'),
-                    ("coarse", jList Json.str (coarseFS nsamp fs (r.1.take k))),
+    let st := jObj [("nops", jNat r.1.length), ("pos", posJson proto nsamp fs r.1 k), ("files", filesJson total nsamp fs'),
+                    ("coarse", jList Json.str (coarseFS proto nsamp fs (r.1.take k))),
                     ("outcome", Json.str (if finished then outcomeStr r.2 else "killed"))]
-    simStages proto strat total nsamp true fs' rest (acc ++ [st])
+    simStages proto strat total nsamp vi true fs' rest (acc ++ [st])
 
 def handle (j : Json) : Json :=
+  let vi := (fBool? j "vi").getD true
   match fStr? j "op", protoOf? j, stratOf? j, fNat? j "total", fNat? j "nsamp" with
   | some "ops", some proto, some strat, some total, some nsamp =>
     match fBool? j "resume" with
     | some r =>
-      let rr := run (natSys nsamp) proto strat r total 0 FS.empty
-      jObj [("coarse", jList Json.str (coarseFS nsamp FS.empty rr.1)), ("fine", jNat rr.1.length),
+      let rr := run (natSys nsamp vi) proto strat r total 0 FS.empty
+      jObj [("coarse", jList Json.str (coarseFS proto nsamp FS.empty rr.1)), ("fine", jNat rr.1.length),
             ("outcome", Json.str (outcomeStr rr.2))]
     | none => jErr "bad-args"
   | some "sim", some proto, some strat, some total, some nsamp =>
     match fBool? j "r0", fNatList? j "kills" with
     | some r0, some kills =>
-      let (stages, fin) := simStages proto strat total nsamp r0 FS.empty kills []
+      let (stages, fin) := simStages proto strat total nsamp vi r0 FS.empty kills []
       jObj [("stages", Json.arr stages.toArray), ("final", fin)]
     | _, _ => jErr "bad-args"
   | _, _, _, _, _ => jErr "bad-op"
